@@ -42,6 +42,9 @@ const (
 	accidentalNatural = ""
 	accidentalSharp   = "#"
 	accidentalFlat    = "b"
+	// the lexer accepts these signs as SHARP and FLAT too
+	accidentalSharpSign = "♯"
+	accidentalFlatSign  = "♭"
 )
 
 var (
@@ -54,6 +57,12 @@ var (
 )
 
 func NewAccidental(s string) Accidental {
+	switch s {
+	case accidentalSharpSign:
+		return Sharp
+	case accidentalFlatSign:
+		return Flat
+	}
 	if x, ok := stringAccidentalMap[s]; ok {
 		return x
 	}
